@@ -17,6 +17,17 @@ pub fn eps() -> f64 {
 	f64::from_bits(EPS_BITS.load(Ordering::Relaxed))
 }
 
+static FLOOR_BITS: AtomicU64 = AtomicU64::new(0x0010_0000_0000_0000); // f64::MIN_POSITIVE
+
+/// smallest positive NORMAL number of the implementation's value type: below it a quantity has lost
+/// precision (or has underflowed to zero), so it cannot be told from 0
+pub fn set_floor(f: f64) {
+	FLOOR_BITS.store(f.to_bits(), Ordering::Relaxed);
+}
+pub fn floor() -> f64 {
+	f64::from_bits(FLOOR_BITS.load(Ordering::Relaxed))
+}
+
 /// value ± radius. `r = INFINITY` means "formula undefined here" (exempt).
 #[derive(Clone, Copy, Debug, PartialEq)]
 pub struct Q {
@@ -273,6 +284,10 @@ pub fn ema_step(y: Q, x: Q, a: f64) -> Q {
 		return Q::undefined();
 	}
 	let v = y.v + a * (x.v - y.v);
-	let r = (1.0 - a).abs() * y.r + a.abs() * x.r + 8.0 * eps() * v.abs().max(x.v.abs()).max(y.v.abs());
+	let mut r = (1.0 - a).abs() * y.r + a.abs() * x.r + 8.0 * eps() * v.abs().max(x.v.abs()).max(y.v.abs());
+	// a decaying filter eventually reaches the subnormal range of the value type (and then exactly 0)
+	if v != 0.0 && v.abs() < 4.0 * floor() / eps().sqrt() {
+		r += floor() / eps();
+	}
 	Q { v, r }
 }
